@@ -300,6 +300,32 @@ func (r *vrun) initiate(h int) error {
 	return nil
 }
 
+// nilShareHazard reports whether ComputeGroupPublicKeyShares of member h would
+// multiply the generator by a nil share (protocol.go: shares.peerSharesS[operatingMemberID]).
+func (r *vrun) nilShareHazard(h int) (int, int, bool) {
+	s, ok := r.cur[h].(*reconstructionState)
+	if !ok {
+		return 0, 0, false
+	}
+	m := s.member
+	for q := range m.receivedQualifiedSharesS {
+		if _, ok := m.receivedValidPeerPublicKeySharePoints[q]; ok {
+			continue
+		}
+		for _, sh := range m.revealedMisbehavedMembersShares {
+			if sh.misbehavedMemberID != q {
+				continue
+			}
+			for _, o := range m.group.OperatingMemberIndexes() {
+				if o != m.ID && sh.peerSharesS[o] == nil {
+					return int(q), int(o), true
+				}
+			}
+		}
+	}
+	return 0, 0, false
+}
+
 // finish moves a member from the combination state to the finalization state
 // and collects its result.
 func (r *vrun) finish(h int) {
@@ -712,7 +738,7 @@ func signature(b kit.V) string {
 		if strings.HasPrefix(a, "A") {
 			var parts []string
 			msgs := st.Get("msgs").List()
-			dflt := len(msgs) == 1 || (a == "A3" && len(msgs) == 2)
+			dflt := (a == "A3" && len(msgs) == 2) || (a != "A3" && len(msgs) == 1)
 			for _, m := range msgs {
 				k, p := m.Get("k").Str(), m.Get("p")
 				d := m.Get("claim").Int() == m.Get("from").Int() && m.Get("sess").Bool()
@@ -878,6 +904,17 @@ func replayBehaviour(t testing.TB, env *venv, rep *kit.Report, b kit.V, idx int,
 				}
 			}
 		case strings.HasPrefix(a, "I"):
+			if a == "I12" && r.aborted[m] == nil {
+				// ComputeGroupPublicKeyShares runs on a goroutine: a nil share
+				// there would crash the whole test binary, so it is detected
+				// on the member's state before the state is initiated
+				if q, o, bad := r.nilShareHazard(m); bad {
+					diverge("crash", fmt.Sprintf("member %d would dereference a nil share in ComputeGroupPublicKeyShares: "+
+						"member %d is reconstructed without a share revealed by operating member %d", m, q, o), nil, nil)
+					r.aborted[m] = fmt.Errorf("not run: nil share hazard")
+					continue
+				}
+			}
 			err := r.initiate(m)
 			if a == "I12" {
 				r.finish(m)
